@@ -601,7 +601,8 @@ impl SparqlDatabase {
                 if i == 0 {
                     output.push(' ');
                 } else {
-                    output.push_str(" ;\n    ");
+                    // the Turtle loader reads one statement per line
+                    output.push_str(" ; ");
                 }
                 output.push_str(&format!("<{}>", predicate));
 
